@@ -21,6 +21,9 @@ pub struct Scn {
     pub fs_writer: bool,
     /// call cleanup every n pushes (0 = never)
     pub cleanup_every: u32,
+    /// every packet is re-encoded by the harness encoder into another legal form before it is pushed (wire::reencode)
+    #[serde(default)]
+    pub reencode: u8,
 }
 
 pub struct C01;
@@ -32,7 +35,7 @@ pub fn gen(rng: &mut Rng, tier: Tier) -> Scn {
         let mut recv = RecvSpec::basic();
         recv.md5_check = true;
         recv.object_timeout_ms = Some(3_600_000);
-        return Scn { sender, recv, fs_writer: false, cleanup_every: 0 };
+        return Scn { sender, recv, fs_writer: false, cleanup_every: 0, reencode: 0 };
     }
     let max_symbols = if tier == Tier::Quick { 300 } else { 1500 };
     let tiny_fdt = rng.chance(0.1);
@@ -122,6 +125,7 @@ pub fn gen(rng: &mut Rng, tier: Tier) -> Scn {
         recv,
         fs_writer: rng.chance(0.15),
         cleanup_every: *rng.pick(&[0u32, 1, 7, 50]),
+        reencode: if rng.chance(0.15) { rng.range(1, 7) as u8 } else { 0 },
     }
 }
 
@@ -152,8 +156,12 @@ pub fn run(scn: &Scn, ctx: &Ctx, scratch: &Path) {
     let mut rr = RecvRun::new(&scn.recv, ctx, monitor.clone(), false, "r0");
     let ep = scn.sender.spec.endpoint.build();
     let mut obj_pkts = 0u64;
+    if scn.reencode != 0 {
+        ctx.borrow_mut().count_fault("legal-re-encoding");
+    }
     for (i, p) in trace.pkts.iter().enumerate() {
-        let ok = rr.push(&ep, &p.bytes, p.t_us);
+        let other_form = if scn.reencode != 0 { crate::wire::reencode(&p.bytes, scn.reencode) } else { None };
+        let ok = rr.push(&ep, other_form.as_deref().unwrap_or(&p.bytes), p.t_us);
         if !ok {
             violate(
                 ctx,
